@@ -464,7 +464,7 @@ def c17_failures(name, ad, c, rng):
 
 DATA_KEYS = ("inp", "zinp", "lon", "lat")
 DATA_CARRIERS = ["list_none", "list_nan", "tuple_none", "float32", "int64", "masked_nan", "masked_hidden", "series", "dask",
-                 "object_none", "series_object", "int16", "int8"]
+                 "object_none", "series_object", "int16", "int8", "masked_partial"]
 TIME_CARRIERS = ["dt64_s", "dt64_ms", "dt64_us", "pydatetime", "timestamps", "dtindex", "series", "series_utc",
                  "dtindex_utc", "epoch_s_list", "epoch_s_array", "epoch_s_int32", "epoch_s_int64", "epoch_s_uint32",
                  "dtindex_s", "series_s", "dtindex_ms"]
@@ -505,6 +505,14 @@ def convert_data(arr, carrier):
         return arr.astype(carrier), True
     if carrier == "masked_nan":
         return np.ma.masked_invalid(arr.copy()), True
+    if carrier == "masked_partial":
+        # a masked array whose mask covers only the FIRST missing value (np.ma.masked_values(raw, fill)): the other
+        # missing values are plain NaN beside the mask
+        if isn.sum() < 2:
+            return arr, False
+        mask = np.zeros(arr.shape, dtype=bool)
+        mask[int(np.argmax(isn))] = True
+        return np.ma.array(arr.copy(), mask=mask), True
     if carrier == "masked_hidden":
         if not isn.any():
             return arr, False
@@ -788,6 +796,35 @@ def carrier_block(ad, cases, tier, rng):
         fails += f
     return {"evaluations": n_eval, "distinct_nontrivial": n_eval, "failures": fails, "errors": [], "samples": [],
             "distribution": {f"calls_on_other_carriers_{ad.name}": n_eval}}
+
+
+def fine_block(ad, cases, tier, rng):
+    """simple_run block: limits moved by 2^-30 towards 'stricter' (a value on a limit is then strictly beyond it) with
+    the data in NARROW carriers (float32, integers): the comparison must be carried out in double precision, on the
+    limits as given - the flags are those of the float64 call"""
+    dom = [c for c in cases if ad.in_domain(c) and (input_length(ad.name, c) or 0) >= 1]
+    fails, n_eval = [], 0
+    for c in sample(dom, 60 if tier == "quick" else 600, rng):
+        d = fine_variant(ad.name, c)
+        if d is None:
+            continue
+        base, _ = ad.impl(d)
+        for dc in ("float32", "int64", "int16"):
+            tr, applied = carrier_transform(dc, None, None)
+            core.KW_TRANSFORM = tr
+            try:
+                got, _ = ad.impl(d)
+            finally:
+                core.KW_TRANSFORM = None
+            if not applied["n"]:
+                continue
+            n_eval += 1
+            if got != base:
+                fails.append({"kind": "predicate", "function": ad.name, "case": d, "impl": base, "impl_carrier": got,
+                              "carrier": {"data": dc},
+                              "clause": f"limits 2^-30 beside the data: flags differ when the series is given as {dc}"})
+    return {"evaluations": n_eval, "distinct_nontrivial": n_eval, "failures": fails, "errors": [], "samples": [],
+            "distribution": {f"fine_limits_on_narrow_carriers_{ad.name}": n_eval}}
 
 
 def reuse_block(ad, cases, tier, rng):
